@@ -3,7 +3,7 @@
 From Coq Require Import List NArith ZArith Bool.
 From Coq.Strings Require Import Byte.
 Require Import GV.Base.Res GV.Base.Byt GV.Base.Ints.
-Require Import GV.Spec.LebSpec GV.Model.Leb GV.Model.Prim GV.Proofs.LebProofs.
+Require Import GV.Spec.LebSpec GV.Spec.PrimSpec GV.Model.Leb GV.Model.Prim GV.Proofs.LebProofs GV.Proofs.PrimProofs.
 Import ListNotations.
 Local Open Scope N_scope.
 
@@ -44,3 +44,293 @@ Example uleb_ex_overflow : read_uleb128 false [xff; xff; xff; xff; xff; xff; xff
 Proof. vm_compute. reflexivity. Qed.
 Example sleb_ex_min : read_sleb128 true [x80; x80; x80; x80; x80; x80; x80; x80; x80; x7f] = Ok ((- 2 ^ 63)%Z, []).
 Proof. vm_compute. reflexivity. Qed.
+
+(* ------------------------------------------------------------------------------------------------ *)
+(* 1. The 16-bit reader (leb128::read::u16): accepts exactly the encodings of at most three bytes whose
+   value fits u16 (so a third byte > 3 — in particular one with the continuation bit — is rejected),
+   for EVERY byte string. The right-hand side contains no Panic: the `result += byte << 14` addition
+   can never overflow. *)
+Theorem uleb16_exact : forall bs : list byte,
+  read_uleb128_u16 bs =
+  match split_leb bs with
+  | None => if (3 <=? length bs)%nat then Err EBadUnsignedLeb128 else Err EUnexpectedEof
+  | Some (enc, rest) =>
+      if (length enc <=? 3)%nat && (uval enc <? 2 ^ 16) then Ok (uval enc, rest)
+      else Err EBadUnsignedLeb128
+  end.
+Proof. exact read_uleb128_u16_exact. Qed.
+
+Theorem uleb16_never_panics : forall bs : list byte,
+  read_uleb128_u16 bs <> Panic /\ read_uleb128_u16 bs <> OutOfFuel.
+Proof. exact read_uleb128_u16_no_panic. Qed.
+
+(* 2. Reader::read_uleb128_u32: the 64-bit reader narrowed; the value is never truncated. *)
+Theorem uleb_u32_exact : forall (dbg : bool) (bs : list byte),
+  read_uleb128_u32 dbg bs =
+  match split_leb bs with
+  | None => if (10 <=? length bs)%nat then Err EBadUnsignedLeb128 else Err EUnexpectedEof
+  | Some (enc, rest) =>
+      if (length enc <=? 10)%nat && (uval enc <? 2 ^ 32) then Ok (uval enc, rest)
+      else Err EBadUnsignedLeb128
+  end.
+Proof. exact read_uleb128_u32_exact. Qed.
+
+Theorem uleb_u32_narrows : forall (dbg : bool) (bs : list byte),
+  read_uleb128_u32 dbg bs =
+  match read_uleb128 dbg bs with
+  | Ok (v, rest) => if v <? 2 ^ 32 then Ok (v, rest) else Err EBadUnsignedLeb128
+  | Err e => Err e
+  | Panic => Panic
+  | OutOfFuel => OutOfFuel
+  end.
+Proof. exact read_uleb128_u32_narrow. Qed.
+
+(* 3. leb128::read::skip consumes exactly the terminated prefix, whatever its length or value. *)
+Theorem skip_exact : forall bs : list byte,
+  skip_leb bs = match split_leb bs with
+                | Some (_, rest) => Ok (tt, rest)
+                | None => Err EUnexpectedEof
+                end.
+Proof. exact skip_leb_exact. Qed.
+
+Example uleb16_ex : read_uleb128_u16 [xff; xff; x03; xaa] = Ok (65535, [xaa]) /\
+  read_uleb128_u16 [xff; xff; x04] = Err EBadUnsignedLeb128 /\
+  read_uleb128_u16 [x80; x80; x80; x00] = Err EBadUnsignedLeb128 /\
+  read_uleb128_u16 [x80; x80] = Err EUnexpectedEof.
+Proof. vm_compute. repeat split; reflexivity. Qed.
+Example uleb32_ex : read_uleb128_u32 true [xff; xff; xff; xff; x0f] = Ok (4294967295, []) /\
+  read_uleb128_u32 true [x80; x80; x80; x80; x10] = Err EBadUnsignedLeb128.
+Proof. vm_compute. split; reflexivity. Qed.
+Example skip_ex : skip_leb [xff; xff; xff; xff; xff; xff; xff; xff; xff; xff; xff; x7f; x01] = Ok (tt, [x01]) /\
+  skip_leb [x80] = Err EUnexpectedEof.
+Proof. vm_compute. split; reflexivity. Qed.
+
+(* 4. Writers: for every u64 / i64 value the encoder returns (never indexes past its 10-byte array)
+   a terminated encoding of the value whose length is what *_size reports, between 1 and 10, and both
+   readers return exactly the value and leave exactly the following bytes. *)
+Theorem leb_write_read_unsigned : forall v : N, v < two64 ->
+  exists enc, write_uleb128 v = Ok enc /\
+    uval enc = v /\
+    N.of_nat (length enc) = uleb128_size v /\ (1 <= length enc <= 10)%nat /\
+    forall r, split_leb (enc ++ r) = Some (enc, r) /\
+              forall dbg, read_uleb128 dbg (enc ++ r) = Ok (v, r).
+Proof. exact write_uleb128_read. Qed.
+
+Theorem leb_write_read_signed : forall v : Z, in_i64 v = true ->
+  exists enc, write_sleb128 v = Ok enc /\
+    sval enc = v /\
+    N.of_nat (length enc) = sleb128_size v /\ (1 <= length enc <= 10)%nat /\
+    forall r, split_leb (enc ++ r) = Some (enc, r) /\
+              forall dbg, read_sleb128 dbg (enc ++ r) = Ok (v, r).
+Proof. exact write_sleb128_read. Qed.
+
+Example leb_write_ex1 : write_uleb128 624485 = Ok [xe5; x8e; x26] /\ uleb128_size 624485 = 3.
+Proof. vm_compute. split; reflexivity. Qed.
+Example leb_write_ex2 : write_sleb128 (-123456)%Z = Ok [xc0; xbb; x78] /\ sleb128_size (-123456)%Z = 3.
+Proof. vm_compute. split; reflexivity. Qed.
+Example leb_write_ex_max : (two64 - 1 < two64) /\ uleb128_size (two64 - 1) = 10 /\
+  in_i64 (- 2 ^ 63)%Z = true /\ sleb128_size (- 2 ^ 63)%Z = 10.
+Proof. vm_compute. repeat split; reflexivity. Qed.
+
+(* 5. Fixed-width integers. The model's recursive byte values are the positional sums of the DWARF
+   text: Σ bs[i]·256^i (little endian) and Σ bs[i]·256^(|bs|-1-i) (big endian). *)
+Theorem le_be_positional : forall bs : list byte,
+  le_val bs = le_sum bs /\ be_val bs = be_sum bs.
+Proof. exact le_be_positional_l. Qed.
+
+(* read_u8/u16/u32/u64/u128 are `read_un 1/2/4/8/16`; the statement holds for every width n:
+   fewer than n bytes -> UnexpectedEof, else the positional value of the first n bytes and the rest. *)
+Theorem fixed_le_be : forall (n : nat) (be : bool) (bs : list byte),
+  read_un n be bs =
+  if (length bs <? n)%nat then Err EUnexpectedEof
+  else Ok (val_sum be (firstn n bs), skipn n bs).
+Proof. exact read_un_exact. Qed.
+
+Theorem fixed_le_be_app : forall (n : nat) (be : bool) (h t : list byte), length h = n ->
+  read_un n be (h ++ t) = Ok (val_sum be h, t) /\ val_sum be h < 256 ^ N.of_nat n.
+Proof. exact read_un_app_lt. Qed.
+
+Theorem fixed_eof_iff : forall (n : nat) (be : bool) (bs : list byte),
+  read_un n be bs = Err EUnexpectedEof <-> (length bs < n)%nat.
+Proof. exact read_un_eof_iff. Qed.
+
+(* write/read identity for every width: the n-byte encoder followed by the n-byte reader is reduction
+   modulo 256^n, hence the identity on values that fit; and every n-byte string is the encoding of its
+   value (the codec is a bijection between n-byte strings and [0, 256^n)). *)
+Theorem fixed_write_read : forall (n : nat) (be : bool) (v : N) (r : list byte),
+  length (enc_un n be v) = n /\
+  read_un n be (enc_un n be v ++ r) = Ok (v mod 256 ^ N.of_nat n, r) /\
+  (v < 256 ^ N.of_nat n -> read_un n be (enc_un n be v ++ r) = Ok (v, r)).
+Proof. exact fixed_write_read_l. Qed.
+
+Theorem fixed_read_write : forall (be : bool) (bs : list byte),
+  enc_un (length bs) be (val_sum be bs) = bs.
+Proof. exact enc_un_val_sum. Qed.
+
+(* read_i8/i16/i32/i64 (`read_in 1/2/4/8`): two's complement of the unsigned value at 8n bits. *)
+Theorem fixed_signed : forall (n : nat) (be : bool) (bs : list byte),
+  read_in n be bs =
+  if (length bs <? n)%nat then Err EUnexpectedEof
+  else Ok (signed_at (8 * N.of_nat n) (val_sum be (firstn n bs)), skipn n bs).
+Proof. exact read_in_exact. Qed.
+
+(* Reader::read_uint(n): the n-byte value for n <= 8 (zero-extended on the correct side), a slice
+   index panic exactly for n > 8. *)
+Theorem read_uint_exact : forall (n : nat) (be : bool) (bs : list byte),
+  read_uint n be bs =
+  if (8 <? n)%nat then Panic
+  else if (length bs <? n)%nat then Err EUnexpectedEof
+  else Ok (val_sum be (firstn n bs), skipn n bs).
+Proof. exact read_uint_full. Qed.
+
+Example fixed_ex1 : read_un 4 false [x78; x56; x34; x12; xaa] = Ok (305419896, [xaa]) /\
+                    read_un 4 true [x12; x34; x56; x78; xaa] = Ok (305419896, [xaa]).
+Proof. vm_compute. split; reflexivity. Qed.
+Example fixed_ex2 : read_in 2 true [xff; xfe] = Ok ((-2)%Z, []) /\ read_un 3 true [x01; x02] = Err EUnexpectedEof.
+Proof. vm_compute. split; reflexivity. Qed.
+Example fixed_ex3 : be_sum [x01; x02; x03] = 66051 /\ le_sum [x01; x02; x03] = 197121.
+Proof. vm_compute. split; reflexivity. Qed.
+
+(* 6. Sized reads: for EVERY size argument (not only u8) and every input, read_address and
+   read_sized_offset are the size-byte fixed-width read when size is 1, 2, 4 or 8 and fail with
+   UnsupportedAddressSize / UnsupportedOffsetSize otherwise, whatever the bytes. *)
+Theorem sized_reads : forall (size : N) (be : bool) (bs : list byte),
+  read_address size be bs =
+    (if size_ok size then read_un (N.to_nat size) be bs else Err EUnsupportedAddressSize) /\
+  read_sized_offset size be bs =
+    (if size_ok size then read_un (N.to_nat size) be bs else Err EUnsupportedOffsetSize).
+Proof. exact sized_reads_l. Qed.
+
+Theorem sized_reads_ok : forall (size : N) (be : bool) (bs : list byte) (v : N) (rest : list byte),
+  read_address size be bs = Ok (v, rest) \/ read_sized_offset size be bs = Ok (v, rest) ->
+  (size = 1 \/ size = 2 \/ size = 4 \/ size = 8) /\
+  exists h, bs = h ++ rest /\ N.of_nat (length h) = size /\ v = val_sum be h /\ v < 2 ^ (8 * size).
+Proof. exact sized_reads_ok_l. Qed.
+
+Theorem address_size_exact : forall bs : list byte,
+  read_address_size bs =
+  match bs with
+  | [] => Err EUnexpectedEof
+  | b :: r => if size_ok (b2n b) then Ok (b2n b, r) else Err EUnsupportedAddressSize
+  end.
+Proof. exact read_address_size_exact. Qed.
+
+Theorem size_ok_iff : forall size : N, size_ok size = true <-> size = 1 \/ size = 2 \/ size = 4 \/ size = 8.
+Proof. exact size_ok_cases. Qed.
+
+Example sized_ex : read_address 3 false [x01; x02; x03] = Err EUnsupportedAddressSize /\
+                   read_sized_offset 0 true [] = Err EUnsupportedOffsetSize /\
+                   read_address 2 true [x01; x02; x03] = Ok (258, [x03]).
+Proof. vm_compute. repeat split; reflexivity. Qed.
+
+(* 7. Initial length, for every input: a first word below 0xfffffff0 is a 32-bit length; 0xffffffff
+   escapes to the next eight bytes (64-bit format); 0xfffffff0..0xfffffffe are reserved. *)
+Theorem initial_len : forall (be : bool) (bs : list byte),
+  read_initial_length be bs =
+  if (length bs <? 4)%nat then Err EUnexpectedEof else
+  let v := val_sum be (firstn 4 bs) in
+  let r := skipn 4 bs in
+  if v <? 4294967280 then Ok ((v, false), r)
+  else if v =? 4294967295 then
+    (if (length r <? 8)%nat then Err EUnexpectedEof
+     else Ok ((val_sum be (firstn 8 r), true), skipn 8 r))
+  else Err EUnknownReservedLength.
+Proof. exact read_initial_length_exact. Qed.
+
+(* The writer never emits bytes the reader would misread: it fails exactly for a 32-bit length in the
+   reserved range or above, and whatever it writes reads back as the same length and format. *)
+Theorem initial_len_write : forall (fmt64 be : bool) (len : N), len < two64 ->
+  write_initial_length fmt64 be len =
+  if fmt64 then Ok (enc_un 4 be 4294967295 ++ enc_un 8 be len)
+  else if len <? 4294967280 then Ok (enc_un 4 be len)
+  else if len <=? 4294967295 then Err WInitialLengthOverflow
+  else Err WValueTooLarge.
+Proof. exact write_initial_length_exact. Qed.
+
+Theorem initial_len_write_read : forall (fmt64 be : bool) (len : N) (bs : list byte), len < two64 ->
+  write_initial_length fmt64 be len = Ok bs ->
+  length bs = (if fmt64 then 12%nat else 4%nat) /\
+  forall r, read_initial_length be (bs ++ r) = Ok ((len, fmt64), r).
+Proof. exact write_initial_length_read. Qed.
+
+Example initial_len_ex :
+  write_initial_length false true 4294967279 = Ok [xff; xff; xff; xef] /\
+  write_initial_length false true 4294967280 = Err WInitialLengthOverflow /\
+  write_initial_length false true 4294967296 = Err WValueTooLarge /\
+  write_initial_length true false 4294967280 =
+    Ok [xff; xff; xff; xff; xf0; xff; xff; xff; x00; x00; x00; x00] /\
+  read_initial_length false [xf0; xff; xff; xff; x00] = Err EUnknownReservedLength.
+Proof. vm_compute. repeat split; reflexivity. Qed.
+
+(* 8. write_udata / write_sdata, for every u64 / i64 value and EVERY size argument: success exactly
+   when the size is 1, 2, 4 or 8 and the value fits; the bytes then carry the value unchanged
+   (never a truncation) and every sized reader returns it. *)
+Theorem write_udata_exact : forall (be : bool) (v size : N), v < two64 ->
+  write_udata be v size =
+  if size_ok size then
+    (if v <? 2 ^ (8 * size) then Ok (enc_un (N.to_nat size) be v) else Err WValueTooLarge)
+  else Err WUnsupportedWordSize.
+Proof. exact PrimProofs.write_udata_exact. Qed.
+
+Theorem write_udata_read : forall (be : bool) (v size : N) (bs : list byte), v < two64 ->
+  write_udata be v size = Ok bs ->
+  size_ok size = true /\ v < 2 ^ (8 * size) /\
+  N.of_nat (length bs) = size /\ val_sum be bs = v /\
+  forall r, read_un (N.to_nat size) be (bs ++ r) = Ok (v, r) /\
+            read_address size be (bs ++ r) = Ok (v, r) /\
+            read_sized_offset size be (bs ++ r) = Ok (v, r).
+Proof. exact write_udata_ok. Qed.
+
+Theorem write_sdata_exact : forall (be : bool) (v : Z) (size : N), in_i64 v = true ->
+  write_sdata be v size =
+  if size_ok size then
+    (if in_signed (8 * size) v then Ok (enc_un (N.to_nat size) be (of_signed (8 * size) v))
+     else Err WValueTooLarge)
+  else Err WUnsupportedWordSize.
+Proof. exact PrimProofs.write_sdata_exact. Qed.
+
+Theorem write_sdata_read : forall (be : bool) (v : Z) (size : N) (bs : list byte), in_i64 v = true ->
+  write_sdata be v size = Ok bs ->
+  size_ok size = true /\ in_signed (8 * size) v = true /\
+  N.of_nat (length bs) = size /\
+  forall r, read_in (N.to_nat size) be (bs ++ r) = Ok (v, r).
+Proof. exact write_sdata_ok. Qed.
+
+Theorem in_signed_iff : forall (bits : N) (v : Z),
+  in_signed bits v = true <-> (- Z.of_N (2 ^ (bits - 1)) <= v < Z.of_N (2 ^ (bits - 1)))%Z.
+Proof. exact in_signed_iff_l. Qed.
+
+Example write_data_ex :
+  write_udata true 256 1 = Err WValueTooLarge /\ write_udata true 255 1 = Ok [xff] /\
+  write_udata false 258 2 = Ok [x02; x01] /\ write_udata false 1 3 = Err WUnsupportedWordSize /\
+  write_sdata true (-129) 1 = Err WValueTooLarge /\ write_sdata true (-128) 1 = Ok [x80] /\
+  write_sdata true 128 1 = Err WValueTooLarge /\ write_sdata false (-2) 2 = Ok [xfe; xff].
+Proof. vm_compute. repeat split; reflexivity. Qed.
+
+(* 9. ReaderAddress helpers for validated sizes (pub(crate) in gimli: no direct stream; exercised
+   through the list/line properties). *)
+Theorem add_sized_sound : forall (a len size s : N), add_sized a len size = Ok s ->
+  s = a + len /\ s <= mask_of size /\ s < two64.
+Proof. exact add_sized_ok. Qed.
+
+Theorem add_sized_exact : forall (a len size : N), size_ok size = true ->
+  add_sized a len size =
+  if a + len <=? 2 ^ (8 * size) - 1 then Ok (a + len) else Err EAddressOverflow.
+Proof. exact PrimProofs.add_sized_exact. Qed.
+
+Theorem wrapping_add_sized_exact : forall (a len size : N), size_ok size = true ->
+  wrapping_add_sized a len size = (a + len) mod 2 ^ (8 * size).
+Proof. exact PrimProofs.wrapping_add_sized_exact. Qed.
+
+Theorem min_tombstone_exact : forall size : N, size_ok size = true ->
+  min_tombstone size = 2 ^ (8 * size) - 2.
+Proof. exact PrimProofs.min_tombstone_exact. Qed.
+
+(* the raw u8 shift arithmetic of ones_sized cannot panic on a validated size, in either build *)
+Theorem ones_sized_validated : forall (dbg : bool) (size : N), size_ok size = true ->
+  ones_sized dbg size = Ok (2 ^ (8 * size) - 1).
+Proof. exact ones_sized_ok. Qed.
+
+Example add_sized_ex : add_sized 65535 1 2 = Err EAddressOverflow /\ add_sized 65534 1 2 = Ok 65535 /\
+  wrapping_add_sized 65535 1 2 = 0 /\ min_tombstone 4 = 4294967294 /\ size_ok 4 = true.
+Proof. vm_compute. repeat split; reflexivity. Qed.
